@@ -65,7 +65,6 @@ class VirtualLoop(asyncio.BaseEventLoop):
         # callable () -> float delay (virtual seconds; 0 -> call_soon)
         self.executor_delay = None
         self.executor_calls = 0
-        self.set_exception_handler(self._record_error)
 
     # -- clock ---------------------------------------------------------
     def time(self):
@@ -77,6 +76,15 @@ class VirtualLoop(asyncio.BaseEventLoop):
 
     def _write_to_self(self):
         pass
+
+    def call_exception_handler(self, context):
+        # record first (the client installs its own handler in start()), then delegate
+        self._record_error(self, context)
+        if self._exception_handler is not None:
+            try:
+                self._exception_handler(self, context)
+            except Exception:
+                pass
 
     def _record_error(self, loop, context):
         exc = context.get('exception')
